@@ -368,6 +368,17 @@ class CallMixin:
             st.assume(z3.Not(isct))
             if not self.o.feasible(st):
                 return
+        # a class held in a variable (NumberField.type_cls): int or float
+        for cname in ("int", "float"):
+            isk = z3.And(V.is_cls(fv.e), V.c(fv.e) == w.CLS[cname])
+            if fv.e is not None and not t.startswith("ref:") and self.o.feasible(st, isk):
+                br = st.clone()
+                br.assume(isk)
+                yield from self.construct(br, cname, args, kwargs, cx)
+                st = st.clone()
+                st.assume(z3.Not(isk))
+                if not self.o.feasible(st):
+                    return
         rest = st
         for cls in ("Schema", "ConfigTypeField"):
             isc = self.o.is_type(fv.e, "ref:" + cls)
